@@ -250,6 +250,17 @@ int write_tar_header(sqfs_ostream_t *fp, const sqfs_dir_entry_t *ent,
 	if (ent->flags & SQFS_DIR_ENTRY_FLAG_HARD_LINK)
 		return write_hard_link(fp, ent, slink_target, counter);
 
+	switch (ent->mode & S_IFMT) {
+	case S_IFCHR: type = TAR_TYPE_CHARDEV; break;
+	case S_IFBLK: type = TAR_TYPE_BLOCKDEV; break;
+	case S_IFLNK: type = TAR_TYPE_SLINK; break;
+	case S_IFREG: type = TAR_TYPE_FILE; break;
+	case S_IFDIR: type = TAR_TYPE_DIR; break;
+	case S_IFIFO: type = TAR_TYPE_FIFO; break;
+	default:
+		return SQFS_ERROR_UNSUPPORTED;
+	}
+
 	if (xattr != NULL) {
 		sprintf(buffer, "pax/xattr%u", counter);
 
@@ -280,17 +291,6 @@ int write_tar_header(sqfs_ostream_t *fp, const sqfs_dir_entry_t *ent,
 
 		sprintf(buffer, "gnu/data%u", counter);
 		name = buffer;
-	}
-
-	switch (ent->mode & S_IFMT) {
-	case S_IFCHR: type = TAR_TYPE_CHARDEV; break;
-	case S_IFBLK: type = TAR_TYPE_BLOCKDEV; break;
-	case S_IFLNK: type = TAR_TYPE_SLINK; break;
-	case S_IFREG: type = TAR_TYPE_FILE; break;
-	case S_IFDIR: type = TAR_TYPE_DIR; break;
-	case S_IFIFO: type = TAR_TYPE_FIFO; break;
-	default:
-		return SQFS_ERROR_UNSUPPORTED;
 	}
 
 	return write_header(fp, ent, name, slink_target, type);
